@@ -34,23 +34,23 @@ Definition taskpool_members : list member :=
     MOther "__weakref__";
     MOther "_add_pool";
     MFun "_apply_spawner" [{| pa_name := "group_name"; pa_kind := PPos; pa_default := false; pa_ann := AStr |}; {| pa_name := "func"; pa_kind := PPos; pa_default := false; pa_ann := APath |}; {| pa_name := "args"; pa_kind := PPos; pa_default := true; pa_ann := ALiteral |}; {| pa_name := "kwargs"; pa_kind := PPos; pa_default := true; pa_ann := ALiteral |}; {| pa_name := "num"; pa_kind := PPos; pa_default := true; pa_ann := AInt |}; {| pa_name := "end_callback"; pa_kind := PPos; pa_default := true; pa_ann := APath |}; {| pa_name := "cancel_callback"; pa_kind := PPos; pa_default := true; pa_ann := APath |}];
-    MFun "_arg_consumer" [{| pa_name := "group_name"; pa_kind := PPos; pa_default := false; pa_ann := AStr |}; {| pa_name := "num_concurrent"; pa_kind := PPos; pa_default := false; pa_ann := AInt |}; {| pa_name := "func"; pa_kind := PPos; pa_default := false; pa_ann := APath |}; {| pa_name := "arg_iter"; pa_kind := PPos; pa_default := false; pa_ann := ALiteral |}; {| pa_name := "arg_stars"; pa_kind := PPos; pa_default := false; pa_ann := AStr |}; {| pa_name := "end_callback"; pa_kind := PPos; pa_default := true; pa_ann := APath |}; {| pa_name := "cancel_callback"; pa_kind := PPos; pa_default := true; pa_ann := APath |}];
-    MFun "_cancel_and_remove_all_from_group" [{| pa_name := "group_name"; pa_kind := PPos; pa_default := false; pa_ann := AStr |}; {| pa_name := "group_reg"; pa_kind := PPos; pa_default := false; pa_ann := AStr |}; {| pa_name := "cancel_kw"; pa_kind := PVarKw; pa_default := false; pa_ann := AStr |}];
+    MFun "_arg_consumer" [{| pa_name := "group_name"; pa_kind := PPos; pa_default := false; pa_ann := AStr |}; {| pa_name := "num_concurrent"; pa_kind := PPos; pa_default := false; pa_ann := AInt |}; {| pa_name := "func"; pa_kind := PPos; pa_default := false; pa_ann := APath |}; {| pa_name := "arg_iter"; pa_kind := PPos; pa_default := false; pa_ann := ALiteral |}; {| pa_name := "arg_stars"; pa_kind := PPos; pa_default := false; pa_ann := AUnknown |}; {| pa_name := "end_callback"; pa_kind := PPos; pa_default := true; pa_ann := APath |}; {| pa_name := "cancel_callback"; pa_kind := PPos; pa_default := true; pa_ann := APath |}];
+    MFun "_cancel_and_remove_all_from_group" [{| pa_name := "group_name"; pa_kind := PPos; pa_default := false; pa_ann := AStr |}; {| pa_name := "group_reg"; pa_kind := PPos; pa_default := false; pa_ann := AUnknown |}; {| pa_name := "cancel_kw"; pa_kind := PVarKw; pa_default := false; pa_ann := AUnknown |}];
     MFun "_cancel_group_meta_tasks" [{| pa_name := "group_name"; pa_kind := PPos; pa_default := false; pa_ann := AStr |}];
-    MFun "_cancel_task" [{| pa_name := "task_id"; pa_kind := PPos; pa_default := false; pa_ann := AInt |}; {| pa_name := "task"; pa_kind := PPos; pa_default := false; pa_ann := AStr |}; {| pa_name := "cancel_kw"; pa_kind := PVarKw; pa_default := false; pa_ann := AStr |}];
-    MFun "_check_start" [{| pa_name := "awaitable"; pa_kind := PKwOnly; pa_default := true; pa_ann := AStr |}; {| pa_name := "function"; pa_kind := PKwOnly; pa_default := true; pa_ann := APath |}; {| pa_name := "ignore_lock"; pa_kind := PKwOnly; pa_default := true; pa_ann := ABool |}];
+    MFun "_cancel_task" [{| pa_name := "task_id"; pa_kind := PPos; pa_default := false; pa_ann := AInt |}; {| pa_name := "task"; pa_kind := PPos; pa_default := false; pa_ann := AUnknown |}; {| pa_name := "cancel_kw"; pa_kind := PVarKw; pa_default := false; pa_ann := AUnknown |}];
+    MFun "_check_start" [{| pa_name := "awaitable"; pa_kind := PKwOnly; pa_default := true; pa_ann := AUnknown |}; {| pa_name := "function"; pa_kind := PKwOnly; pa_default := true; pa_ann := APath |}; {| pa_name := "ignore_lock"; pa_kind := PKwOnly; pa_default := true; pa_ann := ABool |}];
     MFun "_generate_group_name" [{| pa_name := "prefix"; pa_kind := PPos; pa_default := false; pa_ann := AStr |}; {| pa_name := "coroutine_function"; pa_kind := PPos; pa_default := false; pa_ann := APath |}];
     MFun "_get_cancel_kw" [{| pa_name := "msg"; pa_kind := PPos; pa_default := false; pa_ann := AStr |}];
-    MFun "_get_map_end_callback" [{| pa_name := "map_semaphore"; pa_kind := PPos; pa_default := false; pa_ann := AStr |}; {| pa_name := "actual_end_callback"; pa_kind := PPos; pa_default := false; pa_ann := APath |}];
+    MFun "_get_map_end_callback" [{| pa_name := "map_semaphore"; pa_kind := PPos; pa_default := false; pa_ann := AUnknown |}; {| pa_name := "actual_end_callback"; pa_kind := PPos; pa_default := false; pa_ann := APath |}];
     MFun "_get_running_task" [{| pa_name := "task_id"; pa_kind := PPos; pa_default := false; pa_ann := AInt |}];
-    MFun "_map" [{| pa_name := "group_name"; pa_kind := PPos; pa_default := false; pa_ann := AStr |}; {| pa_name := "num_concurrent"; pa_kind := PPos; pa_default := false; pa_ann := AInt |}; {| pa_name := "func"; pa_kind := PPos; pa_default := false; pa_ann := APath |}; {| pa_name := "arg_iter"; pa_kind := PPos; pa_default := false; pa_ann := ALiteral |}; {| pa_name := "arg_stars"; pa_kind := PPos; pa_default := false; pa_ann := AStr |}; {| pa_name := "end_callback"; pa_kind := PPos; pa_default := true; pa_ann := APath |}; {| pa_name := "cancel_callback"; pa_kind := PPos; pa_default := true; pa_ann := APath |}];
+    MFun "_map" [{| pa_name := "group_name"; pa_kind := PPos; pa_default := false; pa_ann := AStr |}; {| pa_name := "num_concurrent"; pa_kind := PPos; pa_default := false; pa_ann := AInt |}; {| pa_name := "func"; pa_kind := PPos; pa_default := false; pa_ann := APath |}; {| pa_name := "arg_iter"; pa_kind := PPos; pa_default := false; pa_ann := ALiteral |}; {| pa_name := "arg_stars"; pa_kind := PPos; pa_default := false; pa_ann := AUnknown |}; {| pa_name := "end_callback"; pa_kind := PPos; pa_default := true; pa_ann := APath |}; {| pa_name := "cancel_callback"; pa_kind := PPos; pa_default := true; pa_ann := APath |}];
     MOther "_pools";
     MFun "_pop_ended_meta_tasks" [];
-    MFun "_start_task" [{| pa_name := "awaitable"; pa_kind := PPos; pa_default := false; pa_ann := AStr |}; {| pa_name := "group_name"; pa_kind := PPos; pa_default := true; pa_ann := AStr |}; {| pa_name := "ignore_lock"; pa_kind := PKwOnly; pa_default := true; pa_ann := ABool |}; {| pa_name := "end_callback"; pa_kind := PKwOnly; pa_default := true; pa_ann := APath |}; {| pa_name := "cancel_callback"; pa_kind := PKwOnly; pa_default := true; pa_ann := APath |}];
+    MFun "_start_task" [{| pa_name := "awaitable"; pa_kind := PPos; pa_default := false; pa_ann := AUnknown |}; {| pa_name := "group_name"; pa_kind := PPos; pa_default := true; pa_ann := AStr |}; {| pa_name := "ignore_lock"; pa_kind := PKwOnly; pa_default := true; pa_ann := ABool |}; {| pa_name := "end_callback"; pa_kind := PKwOnly; pa_default := true; pa_ann := APath |}; {| pa_name := "cancel_callback"; pa_kind := PKwOnly; pa_default := true; pa_ann := APath |}];
     MFun "_task_cancellation" [{| pa_name := "task_id"; pa_kind := PPos; pa_default := false; pa_ann := AInt |}; {| pa_name := "custom_callback"; pa_kind := PPos; pa_default := true; pa_ann := APath |}];
     MFun "_task_ending" [{| pa_name := "task_id"; pa_kind := PPos; pa_default := false; pa_ann := AInt |}; {| pa_name := "custom_callback"; pa_kind := PPos; pa_default := true; pa_ann := APath |}];
     MFun "_task_name" [{| pa_name := "task_id"; pa_kind := PPos; pa_default := false; pa_ann := AInt |}];
-    MFun "_task_wrapper" [{| pa_name := "awaitable"; pa_kind := PPos; pa_default := false; pa_ann := AStr |}; {| pa_name := "task_id"; pa_kind := PPos; pa_default := false; pa_ann := AInt |}; {| pa_name := "end_callback"; pa_kind := PPos; pa_default := true; pa_ann := APath |}; {| pa_name := "cancel_callback"; pa_kind := PPos; pa_default := true; pa_ann := APath |}];
+    MFun "_task_wrapper" [{| pa_name := "awaitable"; pa_kind := PPos; pa_default := false; pa_ann := AUnknown |}; {| pa_name := "task_id"; pa_kind := PPos; pa_default := false; pa_ann := AInt |}; {| pa_name := "end_callback"; pa_kind := PPos; pa_default := true; pa_ann := APath |}; {| pa_name := "cancel_callback"; pa_kind := PPos; pa_default := true; pa_ann := APath |}];
     MFun "apply" [{| pa_name := "func"; pa_kind := PPos; pa_default := false; pa_ann := APath |}; {| pa_name := "args"; pa_kind := PPos; pa_default := true; pa_ann := ALiteral |}; {| pa_name := "kwargs"; pa_kind := PPos; pa_default := true; pa_ann := ALiteral |}; {| pa_name := "num"; pa_kind := PPos; pa_default := true; pa_ann := AInt |}; {| pa_name := "group_name"; pa_kind := PPos; pa_default := true; pa_ann := AStr |}; {| pa_name := "end_callback"; pa_kind := PPos; pa_default := true; pa_ann := APath |}; {| pa_name := "cancel_callback"; pa_kind := PPos; pa_default := true; pa_ann := APath |}];
     MFun "cancel" [{| pa_name := "task_ids"; pa_kind := PVarPos; pa_default := false; pa_ann := AInt |}; {| pa_name := "msg"; pa_kind := PKwOnly; pa_default := true; pa_ann := AStr |}];
     MFun "cancel_all" [{| pa_name := "msg"; pa_kind := PPos; pa_default := true; pa_ann := AStr |}];
@@ -110,20 +110,20 @@ Definition simplepool_members : list member :=
     MOther "__subclasshook__";
     MOther "__weakref__";
     MOther "_add_pool";
-    MFun "_cancel_and_remove_all_from_group" [{| pa_name := "group_name"; pa_kind := PPos; pa_default := false; pa_ann := AStr |}; {| pa_name := "group_reg"; pa_kind := PPos; pa_default := false; pa_ann := AStr |}; {| pa_name := "cancel_kw"; pa_kind := PVarKw; pa_default := false; pa_ann := AStr |}];
+    MFun "_cancel_and_remove_all_from_group" [{| pa_name := "group_name"; pa_kind := PPos; pa_default := false; pa_ann := AStr |}; {| pa_name := "group_reg"; pa_kind := PPos; pa_default := false; pa_ann := AUnknown |}; {| pa_name := "cancel_kw"; pa_kind := PVarKw; pa_default := false; pa_ann := AUnknown |}];
     MFun "_cancel_group_meta_tasks" [{| pa_name := "group_name"; pa_kind := PPos; pa_default := false; pa_ann := AStr |}];
-    MFun "_cancel_task" [{| pa_name := "task_id"; pa_kind := PPos; pa_default := false; pa_ann := AInt |}; {| pa_name := "task"; pa_kind := PPos; pa_default := false; pa_ann := AStr |}; {| pa_name := "cancel_kw"; pa_kind := PVarKw; pa_default := false; pa_ann := AStr |}];
-    MFun "_check_start" [{| pa_name := "awaitable"; pa_kind := PKwOnly; pa_default := true; pa_ann := AStr |}; {| pa_name := "function"; pa_kind := PKwOnly; pa_default := true; pa_ann := APath |}; {| pa_name := "ignore_lock"; pa_kind := PKwOnly; pa_default := true; pa_ann := ABool |}];
+    MFun "_cancel_task" [{| pa_name := "task_id"; pa_kind := PPos; pa_default := false; pa_ann := AInt |}; {| pa_name := "task"; pa_kind := PPos; pa_default := false; pa_ann := AUnknown |}; {| pa_name := "cancel_kw"; pa_kind := PVarKw; pa_default := false; pa_ann := AUnknown |}];
+    MFun "_check_start" [{| pa_name := "awaitable"; pa_kind := PKwOnly; pa_default := true; pa_ann := AUnknown |}; {| pa_name := "function"; pa_kind := PKwOnly; pa_default := true; pa_ann := APath |}; {| pa_name := "ignore_lock"; pa_kind := PKwOnly; pa_default := true; pa_ann := ABool |}];
     MFun "_get_cancel_kw" [{| pa_name := "msg"; pa_kind := PPos; pa_default := false; pa_ann := AStr |}];
     MFun "_get_running_task" [{| pa_name := "task_id"; pa_kind := PPos; pa_default := false; pa_ann := AInt |}];
     MOther "_pools";
     MFun "_pop_ended_meta_tasks" [];
     MFun "_start_num" [{| pa_name := "num"; pa_kind := PPos; pa_default := false; pa_ann := AInt |}; {| pa_name := "group_name"; pa_kind := PPos; pa_default := false; pa_ann := AStr |}];
-    MFun "_start_task" [{| pa_name := "awaitable"; pa_kind := PPos; pa_default := false; pa_ann := AStr |}; {| pa_name := "group_name"; pa_kind := PPos; pa_default := true; pa_ann := AStr |}; {| pa_name := "ignore_lock"; pa_kind := PKwOnly; pa_default := true; pa_ann := ABool |}; {| pa_name := "end_callback"; pa_kind := PKwOnly; pa_default := true; pa_ann := APath |}; {| pa_name := "cancel_callback"; pa_kind := PKwOnly; pa_default := true; pa_ann := APath |}];
+    MFun "_start_task" [{| pa_name := "awaitable"; pa_kind := PPos; pa_default := false; pa_ann := AUnknown |}; {| pa_name := "group_name"; pa_kind := PPos; pa_default := true; pa_ann := AStr |}; {| pa_name := "ignore_lock"; pa_kind := PKwOnly; pa_default := true; pa_ann := ABool |}; {| pa_name := "end_callback"; pa_kind := PKwOnly; pa_default := true; pa_ann := APath |}; {| pa_name := "cancel_callback"; pa_kind := PKwOnly; pa_default := true; pa_ann := APath |}];
     MFun "_task_cancellation" [{| pa_name := "task_id"; pa_kind := PPos; pa_default := false; pa_ann := AInt |}; {| pa_name := "custom_callback"; pa_kind := PPos; pa_default := true; pa_ann := APath |}];
     MFun "_task_ending" [{| pa_name := "task_id"; pa_kind := PPos; pa_default := false; pa_ann := AInt |}; {| pa_name := "custom_callback"; pa_kind := PPos; pa_default := true; pa_ann := APath |}];
     MFun "_task_name" [{| pa_name := "task_id"; pa_kind := PPos; pa_default := false; pa_ann := AInt |}];
-    MFun "_task_wrapper" [{| pa_name := "awaitable"; pa_kind := PPos; pa_default := false; pa_ann := AStr |}; {| pa_name := "task_id"; pa_kind := PPos; pa_default := false; pa_ann := AInt |}; {| pa_name := "end_callback"; pa_kind := PPos; pa_default := true; pa_ann := APath |}; {| pa_name := "cancel_callback"; pa_kind := PPos; pa_default := true; pa_ann := APath |}];
+    MFun "_task_wrapper" [{| pa_name := "awaitable"; pa_kind := PPos; pa_default := false; pa_ann := AUnknown |}; {| pa_name := "task_id"; pa_kind := PPos; pa_default := false; pa_ann := AInt |}; {| pa_name := "end_callback"; pa_kind := PPos; pa_default := true; pa_ann := APath |}; {| pa_name := "cancel_callback"; pa_kind := PPos; pa_default := true; pa_ann := APath |}];
     MFun "cancel" [{| pa_name := "task_ids"; pa_kind := PVarPos; pa_default := false; pa_ann := AInt |}; {| pa_name := "msg"; pa_kind := PKwOnly; pa_default := true; pa_ann := AStr |}];
     MFun "cancel_all" [{| pa_name := "msg"; pa_kind := PPos; pa_default := true; pa_ann := AStr |}];
     MFun "cancel_group" [{| pa_name := "group_name"; pa_kind := PPos; pa_default := false; pa_ann := AStr |}; {| pa_name := "msg"; pa_kind := PPos; pa_default := true; pa_ann := AStr |}];
